@@ -64,6 +64,26 @@ def rule_a(model, rep):
                     o3, f3 = model.method((r[1], r[2]), "_calc_checksum", required=False)
                     if f3 is not None and o3 == (r[1], r[2]):
                         an.analyze(o3[0], f3, (r[1], r[2]), {"secret": T.EITHER})
+    # handlers with an `encoding` context value: the limit applies to the bytes in *that* encoding, so the value handed to
+    # _check_truncate_policy (which would fall back to UTF-8 for text) must already be bytes
+    enc_calls = []
+
+    def on_call(frame, call, argt, kwt):
+        if isinstance(call.func, ast.Attribute) and call.func.attr == "_check_truncate_policy" and argt:
+            enc_calls.append((frame.unit.name, frame.qual, call, argt[0]))
+    an2 = T.Analyzer(model)
+    an2.on_call = on_call
+    for h in table:
+        if h.kind == "wrapper" or h.cref is None:
+            continue
+        if ("passlib.utils.handlers", "HasEncodingContext") in model.mro(h.cref) and table.const(h, "truncate_size") not in (UNKNOWN, None):
+            owner, fn = model.method(h.cref, "_calc_checksum", required=False)
+            if fn is not None:
+                an2.analyze(owner[0], fn, h.cref, {"secret": T.EITHER})
+    for un, q, call, ty in enc_calls:
+        rep.check(ty == T.BYTES, R, site(un, q), f"{ast.unparse(call)}  # argument type {sorted(ty) if ty else ty}",
+                  "a hasher with an `encoding` context value measures the truncation limit on the secret encoded with that encoding",
+                  witness="lmhash(encoding='utf-16-le', truncate_error=True): an 8-character password is 16 bytes (> 14) but is measured as 8 UTF-8 bytes and silently truncated")
     seen = set()
     for un, q, call, cmp_, ty, chain in hits:
         caller = chain[-1] if chain else f"{un}:{q}"
@@ -94,7 +114,8 @@ def rule_b(model, rep):
         if name.split(".")[-1] != "validate_secret" or not call.args:
             return False
         a = call.args[0]
-        return isinstance(a, ast.Name) and a.id == "secret"
+        # the size check must see the caller's value: a `secret` re-bound before the check (decoded, sliced ...) does not count
+        return isinstance(a, ast.Name) and a.id == "secret" and "secret" not in frame.rebound
 
     def delegate(call, frame):
         # X.hash(secret, ...) / X.verify(secret, ...) / X.genhash(secret, ...) on another hasher object
